@@ -639,7 +639,7 @@ M('send-D27-shape-none-path-no-poll', ['C08'], MQ, "            self.poll()  # n
 M('mq-poll-never-reaches-sender', ['C08'], MQ, "        if self.sender is not None:\n            self.sender.poll()\n\n    def send(", "        if self.sender is None:\n            self.sender.poll()\n\n    def send(", ['C08.R7'])
 M('wait-D36-shape-recv-wait-deaf', ['C08'], F, "            self.mq.poll()  # an exit message from downstream must be heard while waiting for upstream too\n", "", ['C08.R7'])
 M('poll-publishes', ['C08'], Z, "        self.send(lambda: None, timeout=0)", "        self.send(lambda: {}, timeout=0)", ['C08.R7'])
-M('required-D28-shape', ['C03', 'C06'], Z, "client_ids = set(client.client_id for client in clients.values() if client.t_last >= t_min)", "client_ids = set(client.client_id for client in clients.values())", ['C03.R6', 'C06.R10'])
+M('required-D28-shape', ['C03', 'C06'], Z, "client_ids = set(str(client.client_id) for client in clients.values() if client.t_last >= t_min)", "client_ids = set(str(client.client_id) for client in clients.values())", ['C03.R6', 'C06.R10'])
 M('cli-D30-shape-empty-value-dropped', ['C12'], CLI, "            return param, True  # '--param=' is a '--param' without a value\n", "            return None, None\n", ['C12.R8'])
 M('cli-D31-shape-ipc-unchecked', ['C12'], CLI, "                    while new_source in ipc_outputs:  # some filter already binds a pipe of this name\n                        new_source += \"_\"\n", "", ['C12.R9'])
 M('cli-ipc-user-outputs-not-recorded', ['C12'], CLI, "            elif output.startswith(\"ipc://\"):\n                ipc_outputs.add(only_mq_addr(output))\n", "", ['C12.R9'])
@@ -703,7 +703,7 @@ M('run-D51-shape-logs-raw-exception', ['C15'], F, "                logger.error(
 
 M('zmq-D52-shape-client-key-concatenated', ['C06'], Z, '''                full_id   = f"{client_id}{env.get('uid', '')}"''', '''                full_id   = client_id + env.get('uid', '')''', ['C06.R13'])
 M('zmq-D53-shape-wall-clock', ['C06'], Z, "from time import monotonic_ns as time_ns, sleep", "from time import time_ns, sleep", ['C06.R13'])
-M('zmq-eph-close-withdraws-permission', ['C05'], Z, "                            if not client.ephemeral:  # a listener leaving changes nothing for the others and must not hold the publisher up\n                                do_send = False", "                            if True:\n                                do_send = False", ['C05.R11'])
+M('zmq-eph-close-withdraws-permission', ['C05'], Z, "                            if not client.ephemeral or str(client_id) in self.outs_required:  # a listener leaving changes nothing for the others and must not hold the publisher up, unless it is an output the publisher has to wait for\n                                do_send = False", "                            if True:\n                                do_send = False", ['C05.R11'])
 M('zmq-eph-id-in-balanced-max', ['C05'], Z, "                        out_prev_id if ephemeral else max(out_prev_id, prev_id),", "                        max(out_prev_id, prev_id),", ['C05.R11'])
 M('zmq-D54-shape-eph-close-keeps-partial', ['C05'], Z, "                            if sender_eph and sender.got == 'some':  # the rest of a half received set will not come any more, and must not be completed by the next publisher on this address\n                                sender.new_recv()\n", "", ['C05.R11'])
 
@@ -725,3 +725,6 @@ M('lineage-D61-shape-facets-kept-across-runs', ['C16'], LN, "            self.fa
 M('lineage-facets-reset-only-with-model', ['C16'], LN, "            self.facets = {}  # what the heartbeats carry: nothing yet", "            if self.filter_model: self.facets = {}  # what the heartbeats carry: nothing yet", ['C16.R8'])
 M('allowlist-D62-shape-null-key', ['C16'], CF, 'names = config.get("safe_metrics") or []', 'names = config.get("safe_metrics", [])', ['C16.R9'])
 M('allowlist-D62-shape-empty-document', ['C16'], CF, "config = yaml.safe_load(f) or {}", "config = yaml.safe_load(f)", ['C16.R9'])
+M('zmq-D63-shape-required-ids-compared-raw', ['C06'], Z, "client_ids = set(str(client.client_id) for client in clients.values() if client.t_last >= t_min)", "client_ids = set(client.client_id for client in clients.values() if client.t_last >= t_min)", ['C06.R15'])
+M('zmq-D63-shape-required-stored-raw', ['C06'], Z, "self.outs_required = [str(o) for o in (outs_required if isinstance(outs_required, (list, tuple, set)) else [outs_required])] if outs_required else []", "self.outs_required = outs_required or []", ['C06.R15'])
+M('zmq-D64-shape-required-eph-close-spared', ['C03', 'C06'], Z, "if not client.ephemeral or str(client_id) in self.outs_required:  #", "if not client.ephemeral:  #", ['C03.R6', 'C06.R10'])
